@@ -19,7 +19,7 @@ TECH = {
  "C15": "metamorphic monitor: after every successful call print -> parse -> compare merged observations",
  "C16": "lock-step reference-model monitor: Vec<char> CharacterData model over an exhaustive offset/count lattice and random call sequences, checked and release builds",
  "C17": "process-level monitor of xq/xe: exit status, stderr, output re-read by independent parsers and compared with the model result",
- "C18": "exhaustive comparison of the five character-class predicates with spec tables over all scalar values; exhaustive short-name acceptance table in four syntactic positions",
+ "C18": "exhaustive comparison of the five character-class predicates with spec tables over all scalar values; exhaustive short-name acceptance table (also behind the keyword stems xmlns/xml) in four syntactic positions; every scalar value run through the real name parsers",
  "C19": "metamorphic monitor (parse twice; fresh vs shared context; before vs after) + hook invariant on the context stacks after every query",
 }
 CLAIMED = __import__("os").environ.get("CLAIMED", "C01 C02 C03 C04 C05 C06 C07 C08 C09 C10 C11 C12 C13 C14 C15 C16 C17 C18 C19").split()
